@@ -73,4 +73,13 @@ MUTANTS = [
             self._cache = {}
 """, """        self._cache = {}
 """)]},
+    # R14i flattening of nested configuration dicts
+    {"id": "c14-flatten-drops-own-key", "expect": "fire", "edits": [(F, 'result[f"{key}.{skey}"] = val_and_src', 'result[skey] = val_and_src')]},
+    {"id": "c14-n-flatten-concat", "expect": "silent", "edits": [(F, 'result[f"{key}.{skey}"] = val_and_src', 'result[key + "." + skey] = val_and_src')]},
+    {"id": "c14-n-flatten-prefix-param", "expect": "silent", "edits": [(F, "    def _flatten_dict(cls, syntax_map):", "    def _flatten_dict(cls, syntax_map, prefix=\"\"):"),
+        (F, "                result[key] = value\n", "                result[prefix + key] = value\n"),
+        (F, '                flatten_subdict = cls._flatten_dict(value)\n                for skey, val_and_src in flatten_subdict.items():\n                    result[f"{key}.{skey}"] = val_and_src\n', "                result.update(cls._flatten_dict(value, f\"{prefix}{key}.\"))\n")]},
+    {"id": "c14-flatten-prefix-param-lost", "expect": "fire", "edits": [(F, "    def _flatten_dict(cls, syntax_map):", "    def _flatten_dict(cls, syntax_map, prefix=\"\"):"),
+        (F, "                result[key] = value\n", "                result[prefix + key] = value\n"),
+        (F, '                flatten_subdict = cls._flatten_dict(value)\n                for skey, val_and_src in flatten_subdict.items():\n                    result[f"{key}.{skey}"] = val_and_src\n', "                result.update(cls._flatten_dict(value, f\"{key}.\"))\n")]},
 ]
